@@ -61,7 +61,8 @@ Mode == IF "mode" \in DOMAIN Traces[tid] THEN Traces[tid].mode ELSE "r+"
 WriteOps == {"insert", "insert_multiple", "remove", "drop_measurement", "remove_all", "update", "update_all"}
 Forbidden(a) ==
   CASE Mode = "r" -> a.op \in WriteOps \/ (a.op = "bad" /\ a.entry \notin {"ctor", "setter"})
-    [] Mode = "a" -> a.op \notin {"insert", "insert_multiple", "reopen"} /\ ~ (a.op = "bad" /\ a.entry \in {"ctor", "setter", "insert_meas", "insert_meas_stored"})
+    [] Mode = "a" -> a.op \notin {"insert", "insert_multiple", "reopen", "repr"} /\      \* (repr() never touches storage)
+                     ~ (a.op = "bad" /\ a.entry \in {"ctor", "setter", "insert_meas", "insert_meas_stored"})
     [] OTHER -> FALSE
 
 (* operations whose failure the specification decides; "bad" operations    *)
